@@ -1063,7 +1063,15 @@ impl<'a, S: Suite> W<'a, S> {
         let msg = self.sessions[s].msg.clone();
         // individual verification against the coordinator's list
         let mut verified = false;
-        if let Some(pos) = self.spk_encs.iter().position(|(_, e)| e[..S::NS] == idw[..]) {
+        // Which public key does the coordinator check the share against? Either the one named by the
+        // share's identifier field, or (tape choice) the one of the node the share came from -- the
+        // library documents that a share "really ours" is required, so a relabelled share must fail.
+        let by_sender = m.src >= FIRST_SIGNER && self.t.chance(1, 3);
+        let pk_ident: Vec<u8> = if by_sender { self.signers[m.src - FIRST_SIGNER].ident_wire.clone() } else { idw.clone() };
+        if by_sender && pk_ident != idw {
+            self.out.probe("probe.frost.share_checked_against_other_signers_key");
+        }
+        if let Some(pos) = self.spk_encs.iter().position(|(_, e)| e[..S::NS] == pk_ident[..]) {
             let spk = self.pks[pos];
             let gpk = self.gpk;
             let r = guard_c19(
@@ -1076,7 +1084,7 @@ impl<'a, S: Suite> W<'a, S> {
             if let Some(r) = r {
                 let wf = list_wellformed::<S>(&list_enc);
                 let auth = self.authentic.get(&(idw.clone(), list_enc.clone(), msg.clone()));
-                let expect = wf && auth.map(|x| x[..] == m.a[..]).unwrap_or(false);
+                let expect = wf && pk_ident == idw && auth.map(|x| x[..] == m.a[..]).unwrap_or(false);
                 self.out.ev(format_args!("coord s{} a{} verify_share ident {} -> {}", m.sess, m.att, hex_abbrev(&int_be(&idw, S::SCALAR_BE)), r));
                 if m.a != m.orig_a {
                     self.out.probe("probe.frost.altered_share_reached_verifier");
